@@ -198,6 +198,9 @@ fn gen_text(rng: &mut Rng, lib: &[Pkg], names: &mut Names) -> Generated {
         .iter()
         .filter(|w| {
             let exported: Vec<&String> = w.items.iter().filter(|(imp, _)| !*imp).map(|(_, n)| n).collect();
+            // (foreign or the document's own interfaces: with `export i0; export i1; import i2;`, i1 using
+            // i0 and i2 using i1, the dependency is imported implicitly as well and the two toolchains
+            // route i1's `use` differently; the directed family below pins the explicit orders that agree)
             exported.iter().any(|x| closure(x).iter().any(|d| exported.contains(&d)))
         })
         .map(|w| w.name.clone())
@@ -332,6 +335,7 @@ fn compare(ctx: &mut Ctx, case: u64, g: &Generated, reference: &[u8], wac: &[u8]
 
 pub fn run(ctx: &mut Ctx) {
     run_witness(ctx);
+    run_import_and_export_orders(ctx);
     let total = ctx.n(40_000, 12_000_000);
     for case in ctx.cases(total) {
         if ctx.out_of_budget() {
@@ -356,6 +360,49 @@ pub fn run(ctx: &mut Ctx) {
 
 /// Directed witness of the recorded finding: a world exports two interfaces of a foreign package,
 /// one of which uses the other.
+/// Directed family: the document's own interfaces `a` (a resource) and `b` (uses it), and every
+/// ordered selection of {import a, export a, import b, export b} as the items of one world: which
+/// `a` the `use` of an exported / imported `b` denotes depends on what came before it.
+fn run_import_and_export_orders(ctx: &mut Ctx) {
+    let case = crate::witness::WITNESS_BASE + 1;
+    if !ctx.mine(case) {
+        return;
+    }
+    ctx.begin(case);
+    let mut text = String::from("package test:pkg;\n\ninterface a {\n    resource r;\n    make: func() -> r;\n}\n\ninterface b {\n    use a.{r};\n    take: func(x: borrow<r>);\n    give: func() -> r;\n}\n\n");
+    let all = [(true, "a"), (false, "a"), (true, "b"), (false, "b")];
+    let mut worlds = Vec::new();
+    fn rec(all: &[(bool, &str); 4], cur: &mut Vec<usize>, out: &mut Vec<Vec<usize>>) {
+        if !cur.is_empty() {
+            out.push(cur.clone());
+        }
+        for i in 0..4 {
+            if !cur.contains(&i) {
+                cur.push(i);
+                rec(all, cur, out);
+                cur.pop();
+            }
+        }
+    }
+    let mut sels = Vec::new();
+    rec(&all, &mut Vec::new(), &mut sels);
+    for (k, sel) in sels.iter().enumerate() {
+        let name = format!("o{k}");
+        let _ = writeln!(text, "world {name} {{");
+        let mut items = Vec::new();
+        for i in sel {
+            let (imp, n) = all[*i];
+            let _ = writeln!(text, "    {} {n};", if imp { "import" } else { "export" });
+            items.push((imp, format!("test:pkg/{n}")));
+        }
+        let _ = writeln!(text, "}}\n");
+        worlds.push(WorldInfo { name, items });
+    }
+    ctx.add("directed:import-and-export-orders", worlds.len() as u64);
+    let g = Generated { wit: text.clone(), wac: text, interfaces: vec!["a".into(), "b".into()], worlds, features: vec![], has_resources: true, exported_dep_worlds: vec![] };
+    check_text(ctx, case, &[], &[], &g);
+}
+
 fn run_witness(ctx: &mut Ctx) {
     let case = crate::witness::WITNESS_BASE;
     if !ctx.mine(case) {
